@@ -42,7 +42,7 @@ CHECKS = {
     'C19': dict(
         level='exploration',
         units=[U('^TestC19$', (8, 15000), (16, 150000))],
-        essential_labels=['kind:log', 'kind:linear', 'kind:cubic', 'non-default-offset', 'pair:cross-kind', 'pair:near-alpha', 'pair:offset'],
+        essential_labels=['kind:log', 'kind:linear', 'kind:cubic', 'non-default-offset', 'pair:cross-kind', 'pair:near-alpha', 'pair:offset', 'sequence-of-reads'],
         assumptions=COMMON_ASSUMPTIONS + ["refdec reads kind/gamma/offset from the binary block independently of the repository's decoder"],
     ),
     'C20': dict(
